@@ -141,6 +141,16 @@ CLAIMED["C06"] = dict(cat="proof", tech="Coq proof over an interleaving model of
         "else must show none-or-all.",
    note="Conc.v bakes in mutual exclusion of the journal Mutex and sequential consistency at micro-step granularity; the implementation side explores enumerated and sampled schedules only", ref="6 C06")
 
+CLAIMED["C09"] = dict(cat="proof", tech="Coq proof (writer buffering + persist modes, end to end with the reader cut theorem) + syscall-trace conformance + power-loss adversary from the shim log",
+   text="Coq theorems (props/C09.v, closed): over Writer.v (8 KiB BufWriter, is_buffer_dirty, persist modes) for EVERY sequence of journal writes of any entry "
+        "sizes and persists: C09_persist_sync_durable (after persist SyncData|SyncAll the power-loss image is the whole stream written so far), "
+        "C09_persist_buffer_crash_safe, C09_powerloss_is_prefix, and C09_synced_batches_recovered (with C03's cut theorem: any surviving prefix covering the synced "
+        "batches is recovered as those batches plus a prefix of the later ones). Tied to the code by comparing the exact write()/fdatasync()/fsync() sequence with byte "
+        "counts of random write/persist sequences against the extracted Writer.v, and by the power-loss adversary on generated workloads (unsynced journal bytes dropped "
+        "at sampled system calls, per-key durability oracle).",
+   note="fsync/fdatasync durability is the OS's promise; rotation and Journal::drop syncs are exercised by the adversary (clean close) but are not model theorems; tables' durability belongs to lsm-tree", ref="6 C09")
+CLAIMED["C02"]["text"] += (" Journal part as theorems (props/C02.v): C02_acknowledged_bytes_reach_the_os and C02_journal_recovers_acknowledged_prefix (Writer.v + C03 cut theorem).")
+
 m = {"version": 1, "setup_cmd": "./setup.sh",
      "hooks": {"guard": "cargo feature fjall_verif",
                "enable": "harness/Cargo.toml depends on fjall = { path = \"/repo\", features = [\"fjall_verif\"] }",
